@@ -45,7 +45,7 @@ ASSUMPTIONS = [
     "hostile absolute paths and traversals stay inside the scratch area (the harness must not touch the real file system)",
     "allowed resource directories: <repo>/pdfminer/cmap and the directory named by CMAP_PATH",
 ]
-PROBES = ["site:encoding-name", "site:cmapname-stream", "site:usecmap", "site:registry-ordering", "site:image-name", "name:dotdot", "name:absolute", "name:nul", "name:long", "name:existing-file", "name:separator", "name:sibling-prefix", "state:outdir-absent", "state:outdir-nested", "state:preexisting-image-name", "image exported", "bait file present at traversal target"]
+PROBES = ["site:encoding-name", "site:cmapname-stream", "site:usecmap", "site:registry-ordering", "site:image-name", "site:image-attr", "name:dotdot", "name:absolute", "name:nul", "name:long", "name:existing-file", "name:separator", "name:sibling-prefix", "state:outdir-absent", "state:outdir-nested", "state:preexisting-image-name", "second export in the same process", "image exported", "bait file present at traversal target"]
 TIERS = {
     "quick": {"batches": 16, "runs": 500, "budget_s": 45},
     "thorough": {"batches": 128, "runs": 500, "budget_s": 900},
@@ -141,7 +141,7 @@ def build_document(t, ctx, fsroot):
     fd = alloc({b"Type": Name(b"FontDescriptor"), b"FontName": Name(b"F"), b"Flags": 4, b"FontBBox": [0, -200, 1000, 800], b"ItalicAngle": 0, b"Ascent": 800, b"Descent": -200, b"CapHeight": 700, b"StemV": 80})
     nsites = t.rint(1, 3, "nsites")
     for i in range(nsites):
-        site = t.pick(["encoding-name", "cmapname-stream", "usecmap", "registry-ordering", "image-name", "image-name"], "site")
+        site = t.pick(["encoding-name", "cmapname-stream", "usecmap", "registry-ordering", "image-name", "image-name", "image-attr"], "site")
         ctx.probe("site:" + site)
         nm = hostile_name(t, ctx, fsroot, 4)
         names.append((site, nm))
@@ -161,6 +161,14 @@ def build_document(t, ctx, fsroot):
                 cidinfo[b"Registry"] = Str(nm)
             else:
                 cidinfo[b"Ordering"] = Str(nm)
+        if site == "image-attr":
+            # document-controlled strings other than the name that end up in the file name of a raw export
+            iname = t.pick([b".", b"..", b"x", b"a/b"], "attr.imgname")
+            w, h = 2, 2
+            img = docs.content_stream(b"00000000>", extra={b"Type": Name(b"XObject"), b"Subtype": Name(b"Image"), b"Width": w, b"Height": h, b"BitsPerComponent": Name(nm), b"ColorSpace": Name(b"DeviceGray"), b"Filter": [Name(b"ASCIIHexDecode")]})
+            xobjs[iname + b"%d" % i if iname in xobjs else iname] = alloc(img)
+            content.append(b"q 10 0 0 10 %d 200 cm " % (20 * i) + pdf_name(iname) + b" Do Q")
+            continue
         if site != "image-name":
             desc = alloc({b"Type": Name(b"Font"), b"Subtype": Name(b"CIDFontType2"), b"BaseFont": Name(b"F"), b"CIDSystemInfo": cidinfo, b"FontDescriptor": fd, b"DW": 500})
             f = {b"Type": Name(b"Font"), b"Subtype": Name(b"Type0"), b"BaseFont": Name(b"F"), b"Encoding": enc, b"DescendantFonts": [desc]}
@@ -221,6 +229,8 @@ def candidate_targets(scratch_top, sim_cmap_dir, outdir, names):
     for site, nm in names:
         s = nm.replace(b"\x00", b"").decode("latin-1")
         for v in (s, s.replace("\\", "/")):
+            if site == "image-attr":
+                continue
             if site == "image-name":
                 for ext in (".bmp", ".jpg", ".img", ".0.bmp", ".0.jpg"):
                     out.add(os.path.normpath(os.path.join(outdir, v + ext)))
@@ -231,8 +241,11 @@ def candidate_targets(scratch_top, sim_cmap_dir, outdir, names):
     return sorted(p for p in out if os.path.isabs(p) and p.startswith(top + os.sep))
 
 
-def child(data, fsroot, sim_cmap_dir, outdir, mode):
-    """Runs in the forked child: returns the audit events and the exception class, if any."""
+def child(data, fsroot, sim_cmap_dir, outdir, mode, twice, scratch_top):
+    """Runs in the forked child: returns the audit events and the exception class, if any.
+
+    twice: export a second time in the same process; between the two exports files appear in the output directory
+    under the names the second export would choose next (somebody else wrote them)."""
     os.chdir(os.path.join(fsroot, "work"))
     os.environ["CMAP_PATH"] = sim_cmap_dir
     seams.FSMON.start()
@@ -243,7 +256,26 @@ def child(data, fsroot, sim_cmap_dir, outdir, mode):
     except Exception as e:
         err = "%s@%s: %r" % (type(e).__name__, where(e), e)
     events = seams.FSMON.stop()
-    return {"events": [list(map(str, e)) for e in events], "err": err}
+    res = {"events": [list(map(str, e)) for e in events], "err": err, "events2": [], "sentinels": [], "existing2": []}
+    if twice and os.path.isdir(outdir):
+        sentinels = []
+        for fn in sorted(os.listdir(outdir)):
+            stem, ext = os.path.splitext(fn)
+            for k in (0, 1):
+                p = os.path.join(outdir, "%s.%d%s" % (stem, k, ext))
+                if not os.path.exists(p) and len(os.path.basename(p)) < 200:
+                    with open(_guard(scratch_top, p), "wb") as f:
+                        f.write(b"written by somebody else between two exports")
+                    sentinels.append(p)
+        res["sentinels"] = sentinels
+        res["existing2"] = [os.path.join(outdir, fn) for fn in os.listdir(outdir)]
+        seams.FSMON.start()
+        try:
+            HL.extract_text_to_fp(io.BytesIO(data), io.BytesIO(), output_type=mode, codec="utf-8", output_dir=outdir)
+        except Exception as e:
+            res["err2"] = "%s@%s: %r" % (type(e).__name__, where(e), e)
+        res["events2"] = [list(map(str, e)) for e in seams.FSMON.stop()]
+    return res
 
 
 def run(tape, ctx, item=None):
@@ -277,6 +309,13 @@ def run(tape, ctx, item=None):
                             if p.startswith(outdir + os.sep):
                                 pre.append(p)
                                 ctx.probe("state:preexisting-image-name")
+            for site, nm in names:
+                if site == "image-name" and len(nm) > 200:
+                    flat = nm.replace(b"\x00", b"").decode("latin-1").replace("/", "_")
+                    for ext in (".bmp", ".jpg"):
+                        for cut in (255, 255 - len(ext), 250, 200):
+                            pre.append(os.path.join(outdir, flat[:cut] + ("" if cut == 255 else ext)))
+                    ctx.probe("state:preexisting-image-name")
             pre.append(os.path.join(outdir, "existing.bmp"))
             pre.append(os.path.join(outdir, "existing.jpg"))
         pre.append(os.path.join(sim_cmap_dir, "existing.pickle.gz"))
@@ -315,7 +354,10 @@ def run(tape, ctx, item=None):
             ctx.probe("bait file present at traversal target", nbait)
         before = snapshot(scratch_top)
         mode = t.pick(["text", "xml", "html"], "mode")
-        res = core.fork_call(lambda: child(data, fsroot, sim_cmap_dir, outdir, mode), timeout=60)
+        twice = t.coin(30, 100, "twice")
+        if twice:
+            ctx.probe("second export in the same process")
+        res = core.fork_call(lambda: child(data, fsroot, sim_cmap_dir, outdir, mode, twice, scratch_top), timeout=60)
         if "error" in res:
             raise core.HarnessError("C15 child failed: %s" % res["error"])
         after = snapshot(scratch_top)
@@ -348,6 +390,21 @@ def run(tape, ctx, item=None):
                     devs.append(Dev("C15:mkdir-outside-output-dir", "mkdir(%r); %s" % (ev[1].replace(scratch_top, "<SCRATCH>"), cfg)))
             elif ev[0] in ("os.rename", "os.remove", "os.rmdir", "os.link", "os.symlink", "os.truncate", "shutil.rmtree"):
                 devs.append(Dev("C15:%s" % ev[0], "%r; %s" % ([x.replace(scratch_top, "<SCRATCH>") for x in ev], cfg)))
+        # second export: nothing that existed when it started may be opened for writing, sentinels stay intact
+        for ev in res.get("events2", []):
+            if ev[0] == "open" and any(c in ev[2] for c in "wax+") and not ev[1].isdigit():
+                real = os.path.realpath(ev[1] if os.path.isabs(ev[1]) else os.path.join(fsroot, "work", ev[1]))
+                if real in {os.path.realpath(x) for x in res["existing2"]}:
+                    devs.append(Dev("C15:overwrite-existing-file", "second export opened %r for writing, which existed when it started; %s" % (ev[1].replace(scratch_top, "<SCRATCH>"), cfg)))
+                elif not real.startswith(out_real + os.sep):
+                    devs.append(Dev("C15:write-outside-output-dir", "second export: open(%r) resolves outside the output directory; %s" % (ev[1].replace(scratch_top, "<SCRATCH>"), cfg)))
+        for p in res.get("sentinels", []):
+            try:
+                with open(_guard(scratch_top, p), "rb") as fh:
+                    if fh.read() != b"written by somebody else between two exports":
+                        devs.append(Dev("C15:overwrite-existing-file", "%s, written between two exports, was overwritten by the second; %s" % (os.path.basename(p), cfg)))
+            except OSError:
+                devs.append(Dev("C15:preexisting-file-changed", "%s vanished; %s" % (os.path.basename(p), cfg)))
         for p, dg in before.items():
             if after.get(p) != dg:
                 devs.append(Dev("C15:preexisting-file-changed", "%s changed or vanished; %s" % (os.path.relpath(p, scratch_top), cfg)))
